@@ -128,6 +128,12 @@ impl Stats {
         );
         if cfg.kind.is_iter() {
             bump(&mut self.faults, &format!("F7_hint_{:?}", cfg.hint), 1);
+            if cfg.tail > 0 {
+                bump(&mut self.faults, "F7b_source_not_fused", 1);
+            }
+            if cfg.lying_hint() {
+                bump(&mut self.faults, "F7c_exact_hint_under_reports", 1);
+            }
         }
         bump(&mut self.faults, "F8_stale_load", s.stale_loads);
         bump(
